@@ -367,7 +367,7 @@ func dumpPaths(c *Ctx, in *Interp, paths []*State, depth int) {
 var sharedRules = map[string][]string{
 	// subset programs behave as under the Go toolchain only if every semantic clause below holds
 	"C01": {"C04/*", "C05/*", "C06/*", "C07/PAR-ROLE", "C07/PAR-RESIZE", "C07/PAR-GLOBALIDX", "C07/LAY-DEPTH", "C08/*", "C09/*", "C10/*", "C11/*", "C12/*", "C13/*", "C14/*", "C16/*", "C02/HND-AGREE", "C02/PEEP-DEPTH", "C02/PEEP-MEASURED", "C02/PEEP-GLUE", "C02/PEEP-SPLIT", "C02/PEEP-BOUND", "C07/INS-PATCH", "C07/FRM-PAIR", "C13/GLOBAL-STATE"},
-	"C02": {"C04/OPS-IMM", "C20/POS-FUSED", "C09/LAY-EVALORDER", "C04/OPS-ARITH"},
+	"C02": {"C04/OPS-IMM", "C20/POS-FUSED", "C09/LAY-EVALORDER", "C04/OPS-ARITH", "C20/POS-LAYOUT"},
 	"C03": {"C14/REP-PRINT"},
 	"C04": {"C02/HND-AGREE", "C11/REP-RAWSLICE", "C11/REP-SLICE", "C12/REP-DEFTYPE", "C12/REP-DEFCONV", "C07/FRM-PAIR", "C16/TAB-PRIORITY", "C16/LOAD-TYPEDEPS", "C17/RELOAD-INPLACE", "C05/TAB-UNARY"},
 	"C05": {"C02/HND-AGREE", "C06/LAY-SHAPE", "C06/LAY-TARGET", "C07/INS-PATCH", "C06/PAR-LINEBREAK"},
@@ -385,11 +385,11 @@ var sharedRules = map[string][]string{
 	// under index collisions is part of what makes layout unobservable
 	"C16": {"C15/LOAD-SORT", "C08/SCO-ORDER", "C12/REP-INTMAP", "C08/SCO-KEYS"},
 	// natives are reached through the same call sequence as script functions: operand order and the hidden callee slot
-	"C19": {"C12/REP-STRUCT", "C11/REP-STACKESCAPE", "C03/PAN-CONVERT", "C20/BT-ORDER", "C09/LAY-EVALORDER", "C08/SCO-DECL", "C02/HND-AGREE", "C09/FRM-PARAMSLOT", "C12/REP-INTMAP", "C07/PAR-RESIZE", "C13/GLOBAL-STATE"},
+	"C19": {"C12/REP-STRUCT", "C11/REP-STACKESCAPE", "C03/PAN-CONVERT", "C20/BT-ORDER", "C09/LAY-EVALORDER", "C08/SCO-DECL", "C02/HND-AGREE", "C09/FRM-PARAMSLOT", "C12/REP-INTMAP", "C07/PAR-RESIZE", "C13/GLOBAL-STATE", "C03/PAN-PREFIX"},
 	"C20": {"C08/SCO-SWAP", "C19/FUNC-ISOLATED"},
 	// what a declaration in a loop body re-executes must survive the optimiser
 	"C08": {"C09/FRM-PARAMSLOT", "C02/HND-AGREE"},
-	"C17": {"C08/SCO-ORDER", "C09/FRM-METHOD", "C12/REP-STRUCT", "C02/HND-AGREE"},
+	"C17": {"C08/SCO-ORDER", "C09/FRM-METHOD", "C12/REP-STRUCT", "C02/HND-AGREE", "C19/API-ACCESSOR"},
 	"C12": {"C04/REP-TYPEDSTORE", "C02/HND-AGREE", "C08/SCO-ORDER", "C16/LOAD-TYPEDEPS", "C16/TAB-PRIORITY", "C08/SCO-KEYS", "C13/GLOBAL-STATE"},
 }
 
